@@ -681,4 +681,140 @@ theorem decode_agrees (h : dc.Hom) (cfg : StreamCfg) (req : ReqInfo) (σ : List 
       · exact agrees_ok w (.ok st f []) nt c false
       · exact readBody_agrees h cfg req _ st f c nt w (by omega) heof hle
 
+/-! ## Property theorems -/
+
+/-- **C08 `agrees_with_spec`.**  For every byte string the peer may send, every
+segmentation of it into reads (schedule `σ`), every request and stream configuration:
+the status, fields and body handed to the caller (or the error class, or the fact that the
+reader still waits) are those the framing rules of `rfc` give for the flat byte string —
+chunked before Content-Length before read-until-close, no body for HEAD/1xx/204/304 —
+with the content coding removed by the (streaming) decoder. -/
+theorem agrees_with_spec (h : dc.Hom) (cfg : StreamCfg) (req : ReqInfo) (σ : List Nat) (w : Wire) :
+    Agrees (decode dc cfg req σ w) (rfc dc cfg req w) :=
+  decode_agrees h cfg req σ w
+
+/-- **C08 `segmentation_independent`.**  Two arbitrary segmentations of the same byte
+stream give the same outcome (status, fields, decoded body / error class / waiting); on
+success the same bytes are reported to the listeners; and when nothing follows the message in the
+stream (no early surplus) also the same number of consumed bytes, the same unread rest and
+the same keep/close decision. -/
+theorem segmentation_independent (h : dc.Hom) (cfg : StreamCfg) (req : ReqInfo) (σ₁ σ₂ : List Nat) (w : Wire) :
+    (decode dc cfg req σ₁ w).outcome = (decode dc cfg req σ₂ w).outcome ∧
+    ((∃ st f b, (decode dc cfg req σ₁ w).outcome = .ok st f b) →
+      (decode dc cfg req σ₁ w).notified = (decode dc cfg req σ₂ w).notified ∧
+      ((rfc dc cfg req w).rest = [] →
+        (decode dc cfg req σ₁ w).consumed = (decode dc cfg req σ₂ w).consumed ∧
+        (decode dc cfg req σ₁ w).closed = (decode dc cfg req σ₂ w).closed ∧
+        (decode dc cfg req σ₁ w).rest = (decode dc cfg req σ₂ w).rest)) := by
+  have a₁ := decode_agrees h cfg req σ₁ w
+  have a₂ := decode_agrees h cfg req σ₂ w
+  refine ⟨a₁.outcome.trans a₂.outcome.symm, ?_⟩
+  intro ⟨st, f, b, hok⟩
+  have hs : ∃ st f b, (rfc dc cfg req w).outcome = .ok st f b := ⟨st, f, b, a₁.outcome ▸ hok⟩
+  refine ⟨(a₁.notified hs).trans (a₂.notified hs).symm, ?_⟩
+  intro hrest
+  rcases a₁.framing hs with ⟨r1, c1, k1⟩ | ⟨_, _, hne⟩
+  · rcases a₂.framing hs with ⟨r2, c2, k2⟩ | ⟨_, _, hne⟩
+    · exact ⟨c1.trans c2.symm, k1.trans k2.symm, r1.trans r2.symm⟩
+    · exact absurd hrest hne
+  · exact absurd hrest hne
+
+/-- **C08 `consumed_exact`.**  A response that completed and left the connection open has
+consumed exactly the message: nothing of what follows was touched, so the next response
+is parsed from its first byte. -/
+theorem consumed_exact (h : dc.Hom) (cfg : StreamCfg) (req : ReqInfo) (σ : List Nat) (w : Wire)
+    (st : Status) (f : Fields) (b : Bytes)
+    (hok : (decode dc cfg req σ w).outcome = .ok st f b) (hopen : (decode dc cfg req σ w).closed = false) :
+    (decode dc cfg req σ w).consumed = (rfc dc cfg req w).length ∧
+    (decode dc cfg req σ w).rest = (rfc dc cfg req w).rest := by
+  have a := decode_agrees h cfg req σ w
+  rcases a.framing ⟨st, f, b, a.outcome ▸ hok⟩ with ⟨r, c, _⟩ | ⟨hc, _, _⟩
+  · exact ⟨c, r⟩
+  · rw [hc] at hopen; cases hopen
+
+/-- **C08 `overrun_closes`.**  If a completed response consumed anything beyond the message
+(the peer sent more than Content-Length and a read swallowed part of it), the surplus was
+not handed to anybody and the connection is closed. -/
+theorem overrun_closes (h : dc.Hom) (cfg : StreamCfg) (req : ReqInfo) (σ : List Nat) (w : Wire)
+    (st : Status) (f : Fields) (b : Bytes)
+    (hok : (decode dc cfg req σ w).outcome = .ok st f b)
+    (hover : (decode dc cfg req σ w).consumed ≠ (rfc dc cfg req w).length) :
+    (decode dc cfg req σ w).closed = true ∧ (rfc dc cfg req w).length < (decode dc cfg req σ w).consumed ∧
+    (decode dc cfg req σ w).notified = (rfc dc cfg req w).notified := by
+  have a := decode_agrees h cfg req σ w
+  have hs : ∃ st f b, (rfc dc cfg req w).outcome = .ok st f b := ⟨st, f, b, a.outcome ▸ hok⟩
+  rcases a.framing hs with ⟨_, c, _⟩ | ⟨hc, hl, _⟩
+  · exact absurd c hover
+  · exact ⟨hc, hl, a.notified hs⟩
+
+/-- surplus that no read swallowed stays in the buffer; `Stream.reconnect` then refuses to
+reuse the connection: **surplus bytes are discarded with the connection** -/
+theorem surplus_discarded (l : Link) (hne : l.leftover ≠ []) : l.reuse = false := by
+  unfold Link.reuse
+  cases hl : l.leftover with
+  | nil => exact absurd hl hne
+  | cons x t => simp
+
+/-- **C08 `lockstep_sequence`.**  On a connection used in lock-step (the peer sends its
+bytes for exchange k only after request k), whatever each exchange left behind — surplus
+bytes, a closed or half-closed connection — every response is decoded from the first byte
+the peer sent for it: the results are those of decoding each exchange's bytes alone. -/
+theorem lockstep_sequence (cfg : StreamCfg) : ∀ (xs : List (ReqInfo × List Nat × Wire)) (l : Link),
+    (session dc cfg l xs).map (·.2) = xs.map (fun x => decode dc cfg x.1 x.2.1 x.2.2) := by
+  intro xs
+  induction xs with
+  | nil => intro l; simp [session]
+  | cons x t ih =>
+    intro l
+    obtain ⟨req, σ, w⟩ := x
+    have hpre : (if l.reuse then l.leftover else []) = [] := by
+      by_cases hr : l.reuse = true
+      · simp only [hr, if_true]
+        unfold Link.reuse at hr
+        simp only [Bool.and_eq_true, List.isEmpty_iff] at hr
+        exact hr.1.2
+      · simp [hr]
+    simp only [session, hpre, List.nil_append, List.map_cons, ih]
+
+/-- ... and a conforming exchange (complete, nothing after it, no `Connection: close`, peer
+keeps the connection open) does keep the connection: persistence is not given up -/
+theorem keepalive_kept (h : dc.Hom) (cfg : StreamCfg) (req : ReqInfo) (σ : List Nat) (w : Wire) (idx : Nat)
+    (st : Status) (f : Fields) (b : Bytes)
+    (hok : (rfc dc cfg req w).outcome = .ok st f b) (hrest : (rfc dc cfg req w).rest = [])
+    (hkeep : (rfc dc cfg req w).close = false) (heof : w.eof = false) :
+    (Link.mk idx (!(decode dc cfg req σ w).closed && (decode dc cfg req σ w).outcome != .stalled)
+      (decode dc cfg req σ w).rest w.eof).reuse = true := by
+  have a := decode_agrees h cfg req σ w
+  rcases a.framing ⟨st, f, b, hok⟩ with ⟨r, _, c⟩ | ⟨_, _, hne⟩
+  · simp [Link.reuse, r, hrest, c, hkeep, heof, a.outcome, hok]
+  · exact absurd hrest hne
+
+/-! ## Non-vacuity -/
+
+def exMsg : Wire := { bytes := lit "HTTP/1.1 200 OK\r\nContent-Length: 2\r\n\r\nabX", eof := false }
+
+/-- the overrun is noticed only when a read swallows surplus: `closed` does depend on the
+schedule when the peer sends surplus early (DESIGN.md section 7 #20); what the caller gets
+does not -/
+theorem overrun_counterexample :
+    (decode idDecoder {} {} [] exMsg).closed = true ∧ (decode idDecoder {} {} [1] exMsg).closed = false ∧
+    (decode idDecoder {} {} [] exMsg).outcome = (decode idDecoder {} {} [1] exMsg).outcome := by
+  decide
+
+example : (rfc idDecoder {} {} exMsg).length = 40 ∧ (rfc idDecoder {} {} exMsg).rest = lit "X" := by decide
+def Outcome.body? : Outcome → Option Bytes
+  | .ok _ _ b => some b
+  | _ => none
+
+example : (decode idDecoder {} {} [0, 0] exMsg).outcome.body? = some (lit "ab") ∧
+    (decode idDecoder {} {} [0, 0] exMsg).consumed = 40 ∧ (decode idDecoder {} {} [0, 0] exMsg).closed = false := by decide
+
+def exChunked : Wire :=
+  { bytes := lit "HTTP/1.1 200 OK\r\nTransfer-Encoding: Chunked\r\n\r\n2;x\r\nab\r\n0\r\nT: 1\r\n\r\n", eof := false }
+example : (decode idDecoder {} {} [0] exChunked).outcome.body? = some (lit "ab") ∧
+    (rfc idDecoder {} {} exChunked).rest = [] ∧ (rfc idDecoder {} {} exChunked).close = false := by decide
+/-- a 304 with Content-Length has no body (and does not wait for one) -/
+example : (decode idDecoder {} {} [] { bytes := lit "HTTP/1.1 304 NM\r\nContent-Length: 5\r\n\r\n", eof := false }).outcome.body?
+    = some [] := by decide
+
 end Wpull.HttpWire
